@@ -7,5 +7,6 @@ func init() {
 		"a network-level failure (connection closed without an answer, the exporter's own per-request timeout) may or may not be retried",
 		"Shutdown is asserted relative to the moment it returned; exporters whose Shutdown waits for the in-flight export satisfy the clause trivially",
 		"only delay-seconds Retry-After values count as a server hint",
+		"the open Retry-After unit finding explains only a wait that is shorter than N seconds but not shorter than N nanoseconds; a shorter wait, or a re-send where even the nanosecond reading exceeds MaxElapsedTime, is a violation",
 	))
 }
